@@ -3,11 +3,11 @@
 package main
 
 import (
-	"strings"
-	"fmt"
-	"os"
 	"flag"
+	"fmt"
 	"math/rand"
+	"os"
+	"strings"
 
 	"github.com/relab/hotstuff"
 	"github.com/relab/hotstuff/core"
